@@ -226,4 +226,91 @@ theorem divCore_spec (v1 v0 u1 u0 tmp1 : Nat) (hv1 : two32 ≤ 2 * v1) (hv1' : v
     rw [h, Nat.mul_left_comm two32 V]; omega
   rw [this, Nat.mul_add_div hV]
 
+theorem divide128_unfold (hi lo b : Nat) (h1 : (b * 2 ^ leadingZeros64 b) % two64 / two32 ≠ 1) :
+    divide128 hi lo b =
+      divCore ((b * 2 ^ leadingZeros64 b) % two64 / two32) ((b * 2 ^ leadingZeros64 b) % two64 % two32)
+        ((lo * 2 ^ leadingZeros64 b) % two64 / two32) ((lo * 2 ^ leadingZeros64 b) % two64 % two32)
+        (((hi * 2 ^ leadingZeros64 b) % two64) ||| (lo >>> (64 - leadingZeros64 b))) := by
+  simp only [divide128, divCore, h1, if_false]
+
+/-- the normalising shift and the split into 32 bit digits, for a shift of 10 … 14 bits (what 16
+digit divisors need) and a dividend below 10^32 -/
+theorem divide128_shift (N b s : Nat) (hs : leadingZeros64 b = s)
+    (hs' : s = 10 ∨ s = 11 ∨ s = 12 ∨ s = 13 ∨ s = 14)
+    (hV1 : 2 ^ 63 ≤ 2 ^ s * b) (hV2 : 2 ^ s * b < 2 ^ 64) (hN : N < 10 ^ 32) :
+    divide128 (N / two64) (N % two64) b = N / b := by
+  have hdm := Nat.div_add_mod N two64
+  have hlo := Nat.mod_lt N (show 0 < two64 by decide)
+  generalize N / two64 = hi at *
+  generalize N % two64 = lo at *
+  have hhi : hi < 2 ^ 43 := by simp only [two64] at hdm; omega
+  have hbpos : 0 < b := by
+    apply Nat.pos_of_ne_zero; intro h; subst h; simp at hV1
+  have hspos : 0 < 2 ^ s := Nat.pow_pos (by decide)
+  rcases hs' with h | h | h | h | h
+  all_goals
+    have e1 : (b * 2 ^ s) % two64 = 2 ^ s * b := by
+      rw [Nat.mul_comm]; exact Nat.mod_eq_of_lt (by simp only [two64]; omega)
+    have e3 : (lo * 2 ^ s) % two64 = (2 ^ s * lo) % two64 := by
+      rw [Nat.mul_comm]
+    have e2 : ((hi * 2 ^ s) % two64) ||| (lo >>> (64 - s)) = 2 ^ s * hi + lo / 2 ^ (64 - s) := by
+      rw [Nat.mod_eq_of_lt (by subst h; simp only [two64]; omega), ← Nat.shiftLeft_eq,
+        Nat.shiftRight_eq_div_pow,
+        ← Nat.shiftLeft_add_eq_or_of_lt (by subst h; simp only [two64] at hlo; omega), Nat.shiftLeft_eq,
+        Nat.mul_comm]
+    have hne : (b * 2 ^ s) % two64 / two32 ≠ 1 := by
+      rw [e1]; subst h; simp only [two32]; omega
+    rw [divide128_unfold hi lo b (by rw [hs]; exact hne), hs, e1, e2, e3]
+    rw [divCore_spec]
+    · -- numerator and denominator are the shifted dividend and divisor
+      have hden : two32 * (2 ^ s * b / two32) + 2 ^ s * b % two32 = 2 ^ s * b := Nat.div_add_mod _ _
+      rw [hden]
+      have hnum : two32 * (two32 * (2 ^ s * hi + lo / 2 ^ (64 - s)) + 2 ^ s * lo % two64 / two32)
+          + 2 ^ s * lo % two64 % two32 = 2 ^ s * N := by
+        rw [← hdm]; subst h; simp only [two32, two64]; omega
+      rw [hnum, Nat.mul_div_mul_left _ _ hspos]
+    · subst h; simp only [two32]; omega
+    · subst h; simp only [two32]; omega
+    · exact Nat.mod_lt _ (by decide)
+    · subst h; simp only [two32, two64]; omega
+    · exact Nat.mod_lt _ (by decide)
+    · rw [Nat.div_add_mod]; subst h; simp only [two64] at hlo; omega
+
+/-- divide128_spec: on 16 digit coefficients the implemented `div128` (32 bit half products +
+Knuth-D long division) IS the specification `a·10^16 / b` used by the model's `div`. -/
+theorem divide128_spec (a b : Nat) (ha1 : 10 ^ 15 ≤ a) (ha2 : a < 10 ^ 16)
+    (hb1 : 10 ^ 15 ≤ b) (hb2 : b < 10 ^ 16) : div128m a b = div128 a b := by
+  have hb0 : b ≠ 0 := by omega
+  have hlo := Nat.log2_self_le hb0
+  have hhi := @Nat.lt_log2_self b
+  have hL1 : 49 ≤ b.log2 := by
+    apply Nat.le_of_not_lt; intro h
+    have : 2 ^ (b.log2 + 1) ≤ 2 ^ 49 := Nat.pow_le_pow_right (by decide) (by omega)
+    omega
+  have hL2 : b.log2 ≤ 53 := by
+    apply Nat.le_of_not_lt; intro h
+    have : 2 ^ 54 ≤ 2 ^ b.log2 := Nat.pow_le_pow_right (by decide) (by omega)
+    omega
+  have hs : leadingZeros64 b = 63 - b.log2 := by simp only [leadingZeros64, hb0, if_false]
+  simp only [div128m]
+  rw [mul128_spec a (by simp only [two64]; omega)]
+  simp only [div128]
+  have hN : 10 ^ 16 * a < 10 ^ 32 := by omega
+  have e : 10000000000000000 * a = 10 ^ 16 * a := by omega
+  rw [e]
+  generalize 10 ^ 16 * a = N at *
+  apply divide128_shift N b (63 - b.log2) hs (by omega) _ _ hN
+  · have hcase : b.log2 = 49 ∨ b.log2 = 50 ∨ b.log2 = 51 ∨ b.log2 = 52 ∨ b.log2 = 53 := by omega
+    rcases hcase with h | h | h | h | h <;> rw [h] at hlo ⊢ <;> omega
+  · have hcase : b.log2 = 49 ∨ b.log2 = 50 ∨ b.log2 = 51 ∨ b.log2 = 52 ∨ b.log2 = 53 := by omega
+    rcases hcase with h | h | h | h | h <;> rw [h] at hhi ⊢ <;> omega
+
+/-- `Div` with the implemented div128 (what the driver executes) is the model's `div` on finite
+normalised operands; the other branches do not use div128 -/
+theorem divM_eq_div (x y : Dnum) (h : (WF x ∧ WF y) ∨ x.sign = 0 ∨ y.sign = 0 ∨ isInf x = true ∨ isInf y = true) :
+    divM x y = div x y := by
+  rcases h with ⟨hx, hy⟩ | h | h | h | h
+  · simp only [divM, div, divide128_spec x.coef y.coef hx.2.1 hx.2.2 hy.2.1 hy.2.2]
+  all_goals (simp only [divM, div, signZero]; repeat' split) <;> simp_all
+
 end Gsu.Dnum
